@@ -60,7 +60,10 @@ def _records(lst, symm):
     return [(al[p], {"count": 10 * (q + 1) + p, "score": fx.score_of(10 * (q + 1) + p)}) for q, p in enumerate(lst)]
 
 
-def _chunk_frame(recs, sort=True):
+IDTYPES = (np.int64, np.uint32, np.int32, np.uint16, np.uint64, np.int16)
+
+
+def _chunk_frame(recs, sort=True, idt=np.int64):
     acc = {}
     for pix, v in recs:
         if pix in acc:
@@ -68,7 +71,7 @@ def _chunk_frame(recs, sort=True):
         else:
             acc[pix] = dict(v)
     keys = sorted(acc) if sort else sorted(acc, reverse=True)
-    return pd.DataFrame({"bin1_id": np.array([k[0] for k in keys], dtype=np.int64), "bin2_id": np.array([k[1] for k in keys], dtype=np.int64),
+    return pd.DataFrame({"bin1_id": np.array([k[0] for k in keys], dtype=idt), "bin2_id": np.array([k[1] for k in keys], dtype=idt),
                          "count": np.array([acc[k]["count"] for k in keys], dtype=np.int64),
                          "score": np.array([acc[k]["score"] for k in keys], dtype=float)})
 
@@ -122,7 +125,11 @@ def _api(R, unit, tier, only):
                         R.cls("with-empty-chunk")
                     out = scratch.fresh()
                     try:
-                        chunks = [_chunk_frame([recs[q] for q in blk], sort=srt) for blk in part]
+                        # the bin-id columns of the chunks rotate through signed and unsigned integer dtypes (every configuration
+                        # with unsorted chunks is visited with an unsigned one at least every other time)
+                        idt = IDTYPES[kk % len(IDTYPES)] if srt else IDTYPES[1 + 2 * (kk // 2 % 2)] if kk % 2 else IDTYPES[kk // 2 % len(IDTYPES)]
+                        R.cls("idtype:" + np.dtype(idt).name + ("" if srt else ":unsorted"))
+                        chunks = [_chunk_frame([recs[q] for q in blk], sort=srt, idt=idt) for blk in part]
                         try:
                             # unsorted chunks: sorting is requested; on every other such case the three validity checks are switched
                             # off as well (the request to sort must not depend on them)
